@@ -27,6 +27,12 @@ MANIFEST = {
 CEX_CFG = "T_C11_cex.cfg"
 
 
+def _jenv(xmx="3g"):
+    """JVM options for the monitor runs: as core.tlc, plus few GC threads (one JVM per shard runs in parallel; with the
+    default of one GC thread per core the collectors of the JVMs starve each other on a loaded machine)."""
+    return {"JAVA_TOOL_OPTIONS": "-DTLA-Library=%s:%s/mc:%s/trace -Xss1g -Xmx%s -XX:ParallelGCThreads=2" % (core.SPEC, core.SPEC, core.SPEC, xmx)}
+
+
 def _vn(v):
     k = v["k"]
     if k in ("reg", "uniq"):
@@ -90,14 +96,14 @@ def _cex(case_line, tag):
     path = os.path.join(core.BUILD, "traces", "C11_cex_%s.ndjson" % tag)
     with open(path, "w") as f:
         f.write(case_line + "\n")
-    r = core.tlc(TRACE_SPEC, cfg=CEX_CFG, trace=path, workers=1, timeout=600)
+    r = core.tlc(TRACE_SPEC, cfg=CEX_CFG, trace=path, workers=1, timeout=600, env=_jenv())
     if r.error:
         raise ToolError("TLC error while computing the counterexample:\n" + r.error)
     return r
 
 
 def _validate(rep, files, parallel, timeout):
-    jobs = [dict(module=TRACE_SPEC, cfg="T_C11.cfg", trace=f, workers=1, timeout=timeout, xmx="3g") for f in files]
+    jobs = [dict(module=TRACE_SPEC, cfg="T_C11.cfg", trace=f, workers=1, timeout=timeout, env=_jenv()) for f in files]
     results = core.tlc_many(jobs, parallel)
     ncex = 0
     for f, r in zip(files, results):
@@ -135,6 +141,9 @@ def check(seed, tier):
     rep = Report("C11", seed, tier)
     core.build_harness()
     quick = tier == "quick"
+    # (M) self-check of the reference interpreter: Pcode.tla against BVInt.tla on 1-byte operand pairs, aliasing laws of the
+    # register views, poison discipline, implicit memory operands, a hand-written block
+    core.mc(rep, "mc/MC_Pcode.tla", "MC_Pcode.cfg" if quick else "MC_Pcode_thorough.cfg", workers=4 if quick else 8, env=_jenv("4g"))
     meta = core.gen("C11", seed, tier, shards=8 if quick else 16)
     _validate(rep, meta["files"], parallel=8, timeout=1800 if quick else 7200)
 
@@ -155,7 +164,7 @@ def check(seed, tier):
     cpath = os.path.join(core.BUILD, "traces", "canary_C11.ndjson")
     with open(cpath, "w") as f:
         f.write(json.dumps(ev) + "\n")
-    r = core.tlc(TRACE_SPEC, cfg="T_C11.cfg", trace=cpath, workers=1, timeout=600)
+    r = core.tlc(TRACE_SPEC, cfg="T_C11.cfg", trace=cpath, workers=1, timeout=600, env=_jenv())
     if r.error:
         raise ToolError("canary: TLC error:\n" + r.error)
     if not _bad_pairs(r):
@@ -173,6 +182,7 @@ def check(seed, tier):
                 "sub-register / same-name smaller register, loads into a sub-register or has a RAM operand",
         "feature_counts": meta["extra"].get("feature_counts"),
         "lifter_panics": meta["extra"].get("lifter_panics"),
+        "mc_runs": rep.cov.get("mc_runs"),
         "samples": [pretty(json.loads(x)) for x in lines[:3]], "trusted_base": TRUSTED,
     }, ["blocks of 1-7 instruction groups over an x86-64-like and an x86-32-like register table (nested sub-registers, lsb > 0, middle pieces, "
         "same-name smaller registers); operand sizes consistent per mnemonic as the P-Code manual demands",
@@ -191,7 +201,7 @@ def replay(path, seed, tier):
     if p.returncode != 0:
         raise ToolError("replay failed: " + p.stdout[-2000:])
     f = os.path.join(out, "shard00.ndjson")
-    r = core.tlc(TRACE_SPEC, cfg=CEX_CFG, trace=f, workers=1, timeout=900)
+    r = core.tlc(TRACE_SPEC, cfg=CEX_CFG, trace=f, workers=1, timeout=900, env=_jenv())
     if r.error:
         raise ToolError(r.error)
     if r.invariant or r.badlines:
